@@ -89,7 +89,7 @@ COMMON_ASSUMPTIONS = [
 
 PROPS = {
     "C01": {
-        "mc": DEC_MODELS + ["len_tlc", "len_base", "len_step", "len_progress", "len_tlaps"], "gen": ["decode", "avps", "payload", "decode_big", "many_avps", "avp_lengths", "octet_sweep", "text_classes", "record_product", "value_products"],
+        "mc": DEC_MODELS + ["len_tlc", "len_base", "len_step", "len_progress", "len_tlaps"], "gen": ["decode", "avps", "payload", "decode_big", "many_avps", "avp_lengths", "octet_sweep", "text_classes", "record_product", "value_products", "flags"],
         "rule": "TLC-explored boundary grammars of the decoder machine (every run exported and replayed) + seeded "
                 "random / mutated / raw inputs through both entry points, the bare AVP list reader and the per-type "
                 "readers, in a dev build (overflow checks, debug assertions) and a release build, under catch_unwind "
